@@ -36,6 +36,32 @@ def run(ck):
     ck.rule("P1 Helper::Session::popRequest: with concurrency the result is taken only from requestsIndex.find(request_number) and only when the ID was found "
             "(it != end()); without concurrency it is requests.front() (only if !empty) and that element is popped; the result is null otherwise")
     pop = facts.fn(SES + "popRequest")
+    # P1c (independent of local names): with concurrency, a request leaves the queue only when the reply's channel ID was found in the index
+    ck.rule("P1c popRequest, structural form: under childs.concurrency every removal from the request queue (requests.erase/pop_front) happens only with "
+            "`<iterator> != requestsIndex.end()` established for an iterator defined by requestsIndex.find(<the channel-ID parameter>): a reply for an unknown, "
+            "duplicate or late channel must select no request (and certainly not the oldest one)")
+    chan = pop.params[0]["d"] if pop.params else None
+    ck.need(chan, "C47: popRequest lost its channel-ID parameter")
+    pdefs = ck.local_defs(pop)
+
+    def is_find(d):
+        c = [n for n in E.walk(d) if isinstance(n, dict) and n.get("k") == "call" and n.get("f") == "std::map::find"]
+        return len(c) == 1 and E.m_is_mem(INDEX)(c[0].get("o")) and len(c[0].get("a", [])) == 1 and E.m_is_ref(chan)(c[0]["a"][0])
+    its = sorted(n for n, ds in pdefs.items() if ds and all(is_find(d) for d in ds))
+    removal = on_member(REQS, {"erase", "pop_front", "pop_back", "clear"})
+    cfl = ck.flow(pop, assume=[(conc, True)])
+    rsites = cfl.find(removal)
+    if not its:
+        ck.violation("P1c.remove-only-found", "P1c|popRequest|no-index-lookup", pop.where(), "popRequest no longer looks the reply's channel ID up with requestsIndex.find(%s)" % chan)
+    for st in rsites:
+        notfound = E.M(lambda t: bool(set(its) & E.mentions(t)) and "std::map::end" in E.mentions(t) and E.strip(t).get("op") == "==", "it == requestsIndex.end()")
+        if its and st.has(notfound, False):
+            ck.ok("P1c.remove-only-found", st.where(), "concurrent: a request is removed from the queue only after its channel ID was found")
+        else:
+            ck.violation("P1c.remove-only-found", "P1c|popRequest|removal-without-found-id", st.where(),
+                         "with concurrency, popRequest can remove a request from the queue (%s) on a path where the reply's channel ID was not found in requestsIndex: "
+                         "a reply for an unknown/duplicate channel is delivered to another (the oldest) request" % st.desc()[:60], cfl.witness(st))
+    ck.need(rsites, "C47: popRequest no longer removes the selected request from the queue")
     need_locals(ck, pop, "r", "request_number")
     found = E.M(lambda t: {"it", "std::map::end"} <= E.mentions(t), "it==end()")
     fl = ck.flow(pop, assume=[(conc, True)])
